@@ -17,8 +17,8 @@ When(c, S) == IF c THEN S ELSE {}
 Check(e) ==
   LET x == Expected(e.script, e.count, e.attempts)
       delivered == [i \in 1..(IF x.got > 70000 THEN 0 ELSE x.got) |-> i % 256]
-      AB == <<97, 98>>
-      YZ == <<121, 122>>
+      AB == e.ab          \* what the encoder entries encode before / after the read ("ab" / "yz", or "a FE" / "FD z")
+      YZ == e.yz
   IN IF e.panic # "" THEN {"read_n panicked: " \o e.panic}
      ELSE
           When(Len(e.calls) > e.attempts, {"the reader was called more than max_attempts times"})
